@@ -3,6 +3,8 @@ package main
 import (
 	"fmt"
 	"strings"
+
+	pongo2 "github.com/flosch/pongo2/v6"
 )
 
 func init() {
@@ -24,6 +26,11 @@ func wsRun(r *RNG) string {
 	n := r.Intn(4)
 	var sb strings.Builder
 	for i := 0; i < n; i++ {
+		if r.Chance(1, 12) {
+			// not whitespace to the engine (its set is space, tab, CR, LF): these stay, whatever is trimmed around them
+			sb.WriteString(r.Pick([]string{"\f", "\v", "\u00a0", "\u2003", "\u0085", " \f ", "\n\u00a0\n"}))
+			continue
+		}
 		sb.WriteString(r.Pick([]string{" ", "\n", "\t", "\r", "  ", "\n\n", " \n", "\n "}))
 	}
 	return sb.String()
@@ -224,6 +231,61 @@ func suiteC15(cfg Config, res *Result) {
 			wants[pc.Req()] = ro.Out
 		}
 		nontriv[pc.Req()] = marked
+		// the same document reaching the set by its other routes: the options apply alike
+		if i%5 == 1 && ro.Class == "ok" {
+			for _, route := range []string{"cache-miss+hit", "cache, options set afterwards", "file", "bytes", "set options changed after loading"} {
+				rset := pongo2.NewSet("c15r", &memLoader{files: map[string]string{"doc.tpl": src.String()}, id: "0"})
+				opt := &pongo2.Options{TrimBlocks: trim, LStripBlocks: lstrip}
+				var tpls []*pongo2.Template
+				var err error
+				var t1, t2 *pongo2.Template
+				switch route {
+				case "cache-miss+hit":
+					rset.Options = opt
+					t1, err = rset.FromCache("doc.tpl")
+					t2, _ = rset.FromCache("doc.tpl")
+					tpls = []*pongo2.Template{t1, t2}
+				case "cache, options set afterwards":
+					t1, err = rset.FromCache("doc.tpl")
+					if err == nil {
+						t1.Options.TrimBlocks, t1.Options.LStripBlocks = trim, lstrip
+					}
+					tpls = []*pongo2.Template{t1}
+				case "file":
+					rset.Options = opt
+					t1, err = rset.FromFile("doc.tpl")
+					tpls = []*pongo2.Template{t1}
+				case "bytes":
+					rset.Options = opt
+					t1, err = rset.FromBytes([]byte(src.String()))
+					tpls = []*pongo2.Template{t1}
+				default:
+					// a template keeps the options it was compiled with: here none
+					t1, err = rset.FromCache("doc.tpl")
+					rset.Options = opt
+					tpls = []*pongo2.Template{t1}
+				}
+				if err != nil {
+					continue
+				}
+				want := ro.Out
+				if route == "set options changed after loading" {
+					ss, _ := mkStripped(false, false)
+					w := (ProgCase{Src: ss, Ctx: &ct}).RunImpl()
+					if w.Class != "ok" {
+						continue
+					}
+					want = w.Out
+				}
+				for _, tpl := range tpls {
+					res.Cases++
+					if got := execOnce(tpl, ct.Go()); got.err != "" || got.pan != "" || got.out != want {
+						res.add(Finding{Kind: "oracle", Proj: "whitespace", Sig: "c15-route-" + strings.Fields(route)[0], Case: fmt.Sprintf("src=%q trim=%v lstrip=%v via %s", src.String(), trim, lstrip, route), Impl: got.String(), Model: "hand-stripped source renders ok " + hxb(want)})
+						break
+					}
+				}
+			}
+		}
 		// one compiled template executed under all four settings in turn: the options in force at
 		// each execution decide, not the ones of an earlier execution
 		if i%5 == 0 {
